@@ -53,6 +53,7 @@ type C20Case struct {
 	StopKind  string    `json:"stop_kind"` // none | session-stop | handler-stop | serve-close
 	StopAt    int64     `json:"stop_at"`
 	Horizon   int64     `json:"horizon"`
+	LogonCbNs int64     `json:"logon_cb_ns"` // acceptor: virtual time the application's logon callback takes (senders and timers run meanwhile)
 }
 
 func genC20(t *rapid.T) *C20Case {
@@ -90,6 +91,9 @@ func genC20(t *rapid.T) *C20Case {
 	sort.SliceStable(c.Regs, func(i, j int) bool { return c.Regs[i].At < c.Regs[j].At })
 	c.StopKind = rapid.SampledFrom([]string{"none", "session-stop", "session-stop", "handler-stop", "serve-close"}).Draw(t, "stopKind")
 	c.StopAt = rapid.Int64Range(0, c.Horizon).Draw(t, "stopAt")
+	if c.Role == "acceptor" {
+		c.LogonCbNs = rapid.SampledFrom([]int64{0, 0, 1000, 1e6, 50e6}).Draw(t, "logonCbNs")
+	}
 	return c
 }
 
@@ -166,7 +170,7 @@ func checkC20(c *C20Case, rec *evid.Rec) (vs []pbt.Violation) {
 	_, trouble := rig.BubbleIsolated(outerT, func() {
 		store := memory.NewStorage() // the bundled store, unwrapped
 		cfg := rig.Cfg{Role: c.Role, HBMin: 1, HBMax: 60, HBInt: c.N, Methods: []string{"0"}, Approve: "all",
-			CloseTimeoutMs: 200, Buf: c.Buf, Sender: "LIB", Target: "PEER", User: "alice", Pass: "secret"}
+			CloseTimeoutMs: 200, Buf: c.Buf, Sender: "LIB", Target: "PEER", User: "alice", Pass: "secret", LogonCbNs: c.LogonCbNs}
 		type got struct {
 			s *session.Session
 			h interface {
@@ -359,6 +363,9 @@ func checkC20(c *C20Case, rec *evid.Rec) (vs []pbt.Violation) {
 	rec.Case(evid.FPs(fmt.Sprint(c.Role, c.Buf, c.N, kinds, len(c.Senders), len(c.Peer), c.StopKind)), len(kinds) >= 2)
 	rec.Hist("role:" + c.Role)
 	rec.Hist("stop:" + c.StopKind)
+	if c.LogonCbNs > 0 {
+		rec.Hist("slow-logon-callback")
+	}
 	for _, k := range kinds {
 		rec.Hist("activity:" + k)
 	}
